@@ -610,6 +610,16 @@ def r6(k: Kit) -> None:
         if fi.name in ('connection_made', '__init__'):
             continue
         rm = []
+        alias = {dotted(x.targets[0]) for x in ast.walk(fi.node)
+                 if isinstance(x, ast.Assign) and len(x.targets) == 1 and
+                 isinstance(x.targets[0], ast.Name) and
+                 isinstance(x.value, ast.Subscript) and
+                 dotted(x.value.value) == 'self._recv_buf'}
+
+        def is_buf(e):
+            return (isinstance(e, ast.Subscript) and
+                    dotted(e.value) == 'self._recv_buf') or \
+                (isinstance(e, ast.Name) and e.id in alias)
         for x in ast.walk(fi.node):
             if isinstance(x, ast.Assign):
                 for t in x.targets:
@@ -617,6 +627,15 @@ def r6(k: Kit) -> None:
                         if isinstance(e, ast.Subscript) and \
                                 dotted(e.value) == 'self._recv_buf':
                             rm.append(x)
+            elif isinstance(x, ast.Delete):
+                # del buf[...] with a slice: a bulk removal
+                if any(isinstance(t, ast.Subscript) and is_buf(t.value) and
+                       isinstance(t.slice, ast.Slice) for t in x.targets):
+                    rm.append(x)
+            elif isinstance(x, ast.Call) and \
+                    isinstance(x.func, ast.Attribute) and \
+                    x.func.attr == 'clear' and is_buf(x.func.value):
+                rm.append(x)
             elif isinstance(x, ast.Call) and \
                     isinstance(x.func, ast.Attribute) and \
                     x.func.attr in ('clear', 'pop') and \
